@@ -28,9 +28,6 @@ pub fn verif_btree_range_to_last<'a, V>(m: &'a BTreeMap<i64, V>, hi: i64) -> (r:
         }
 { unimplemented!() }
 
-/// the ghost reading of a vector of borrowed entries: entry i as an owned (key, value) pair
-pub open spec fn mr_entry<V>(s: Seq<(&i64, &V)>, i: int) -> (i64, V) { (*s[i].0, *s[i].1) }
-
 /// R9 target for  `MAP.range(LO..HI)` consumed front to back (`.map(f).collect()`): the entries with
 /// LO <= key < HI, each once, in ascending key order.  `range` panics when LO > HI (LO == HI is an empty range).
 #[verifier::external_body]
